@@ -43,5 +43,5 @@ def t_loc(chk, ix):
 
 def run(chk, ix, tier):
     t_loc(chk, ix)
-    for r, n in (("B1", 1), ("B4", 1), ("L1", 4), ("L3", 2), ("L4", 6), ("L6", 3), ("L7", 8), ("L8", 3), ("L9", 11), ("L10", 3), ("RF1", 3), ("G4", 16)):
+    for r, n in (("B1", 1), ("B4", 1), ("L1", 4), ("L3", 2), ("L4", 6), ("L6", 3), ("L7", 8), ("L8", 3), ("L9", 11), ("L10", 3), ("RF1", 1), ("G4", 16)):
         chk.require_instances(r, n)
